@@ -28,6 +28,8 @@ type T struct {
 	blocked string
 	done    bool
 	started bool
+	LowPrio bool // see enabled()
+	idle    bool // waiting for quiescence: enabled only when nothing else is
 	f       func()
 }
 
@@ -105,18 +107,51 @@ func (s *S) Cancel(t *T) bool {
 
 func (s *S) enabled() []*T {
 	var r []*T
-	if c := s.cur; c != nil && !c.done && (c.ready == nil || c.ready()) {
+	curEnabled := false
+	if c := s.cur; c != nil && !c.done && !c.idle && (c.ready == nil || c.ready()) {
 		r = append(r, c)
+		curEnabled = true
 	}
+	var low []*T
 	for _, t := range s.threads {
-		if t == s.cur || t.done {
+		if t == s.cur || t.done || t.idle {
 			continue
 		}
 		if t.ready == nil || t.ready() {
-			r = append(r, t)
+			if t.LowPrio {
+				low = append(low, t)
+			} else {
+				r = append(r, t)
+			}
+		}
+	}
+	// Low-priority threads (periodic tickers = "time passes") run when nothing else can, or as a
+	// costed preemption of the running thread; they are not offered as free alternatives, which
+	// would let an unfair schedule burn all ticks before the other threads ever run.
+	if curEnabled || len(r) == 0 {
+		r = append(r, low...)
+	}
+	if len(r) == 0 { // quiescent: threads awaiting quiescence may go on
+		for _, t := range s.threads {
+			if t.idle && !t.done {
+				r = append(r, t)
+			}
 		}
 	}
 	return r
+}
+
+// AwaitQuiescence suspends the running thread until no other thread is enabled (all others are
+// finished or blocked, timers and tickers exhausted): the fair-suffix end of an execution.
+func (s *S) AwaitQuiescence() {
+	if s.aborting {
+		return
+	}
+	s.cur.idle = true
+	s.cur.blocked = "await quiescence"
+	s.schedule("await-quiescence")
+	s.cur.idle = false
+	s.cur.blocked = ""
 }
 
 func (s *S) decide(n int, class uint8, label string) int {
